@@ -468,6 +468,12 @@ class HamiltonianChain(MarkovChain):
         chain.n_parameters = int(D["n_parameters"])
         chain.chain_length = int(D["chain_length"])
         chain.steps = int(D["steps"])
+        # the mass is only built by __init__ when a starting point is given
+        inv_mass = D["inv_mass"]
+        chain.mass = get_particle_mass(
+            inverse_mass=inv_mass.item() if inv_mass.ndim == 0 else array(inv_mass),
+            n_parameters=chain.n_parameters,
+        )
 
         t = D["theta"]
         chain.theta = [t[i, :] for i in range(t.shape[0])]
